@@ -182,6 +182,8 @@ var c08Globals = [][]string{
 	{"--date-format", "bogus"}, {"--date-format", ""}, {"--date-format", "2006-01-02"}, {"--date-format", "Monday"}, {"--date-format", "%Y"},
 	{"--today", "garbage"}, {"--today", ""}, {"--today", "2021/02/30"},
 	{"--no-database"}, {"--config", "nonexistent.conf"}, {"--config", "."}, {"--config", "food.yaml"}, {"--no-color"},
+	{"--config", "food.yaml/config"}, {"--config", "/dev/null/x"}, {"--config", strings.Repeat("n", 300)}, {"--config", strings.Repeat("d/", 3000) + "c"},
+	{"-d", "log.yaml/x"}, {"-l", strings.Repeat("n", 300)}, {"--config", "/dev/null"}, {"-d", "/dev/null"},
 	{"-d", "."}, {"-l", "."}, {"-d", "nonexistent"}, {"-l", "nonexistent"}, {"-d", "log.yaml", "-l", "food.yaml"}, {"-d", ""}, {"-l", ""},
 }
 
